@@ -513,7 +513,21 @@ impl Drop for SampleBarrier<'_> {
     fn drop(&mut self) {
         if std::thread::panicking() {
             for _ in 0..self.remaining.get() {
+                #[cfg(divan_verif)]
+                crate::__verif::log_event(
+                    crate::__verif::ev::BARRIER_ARRIVE,
+                    3,
+                    0,
+                );
+
                 self.barrier.wait();
+
+                #[cfg(divan_verif)]
+                crate::__verif::log_event(
+                    crate::__verif::ev::BARRIER_LEAVE,
+                    3,
+                    0,
+                );
             }
         }
     }
